@@ -1982,6 +1982,11 @@ def rule6(ctx, rep, fx):
 def _ancestry_facts(prog, rep, r, fx):
     """what the shared closure rule (R-C09-3) leaves open about Construct._ancestry: whose parents seed and extend the
     set, which frontier elements are skipped, and which node receives the result"""
+    if CONSTRUCT + '._ancestry' not in prog.funcs:
+        # the closure pass is gone: the shared closure rule (R-C09-3) reports that; nothing left to refine here
+        r.instance()
+        r.fail(f'{CONSTRUCT}._ancestry:own-closure', where(fx.init), 'Construct._ancestry no longer exists: no separate closure pass runs after the parent edges are complete (see R-C09-3)')
+        return
     af = prog.func(CONSTRUCT + '._ancestry')
     rep.analysed(af)
     w = World(prog)
